@@ -1,4 +1,7 @@
 import CV.Proofs.CoreValue
+import CV.Proofs.InvValue
+import CV.Proofs.InvValueErr
+import CV.Proofs.InvValueLoop
 /-
 C04 - value layer.  `Val.set` is the function the machine calls for every non-None handler
 result (`setValue` in CV.Model.Core.Machine); these theorems say that whatever sequence of
@@ -30,5 +33,267 @@ theorem set_marks_result (v : Val) (x : VItem) : (v.set x).result = true := Val.
 example : (setAll {} [.val 3, .err, .val 5]).view = .many [.val 3, .err, .val 5] := by decide
 example : (setAll {} [.val 3]).view = .single (.val 3) := by decide
 example : (setAll {} []).view = .unset := by decide
+
+
+/-! ## Machine level (small-step core machine, `CV.Model.Core.Step`)
+
+Hypothesis on the initial state of a session: every event that already exists has a
+well-formed Value (`VWF`; in a driver session the event table starts empty).  All statements
+quantify over every program table, every tape, every reachable configuration (`Reach s0 c`)
+or - where no invariant is needed - over *every* configuration. -/
+
+/-- non-vacuity of the Init hypothesis: the empty state, and a state with one fresh event -/
+example : VWF {} := fun e => by
+  rw [St.v4ev_dflt _ e (Nat.zero_le _)]; exact Val.wf_init
+example : VWF { evs := [{ name := ⟨1, []⟩ }] } := fun e => by
+  cases e with
+  | zero => exact Val.wf_init
+  | succ n => rw [St.v4ev_dflt _ _ (by simp)]; exact Val.wf_init
+
+/-- **ValInv**: in every reachable configuration every event's Value is in one of the three
+    shapes unset / single / list of ≥ 2 - the Value is only ever written by `Val.set` (append
+    one item), the `errors`/`promise` flag writes, and the reset in `fireRaw` -/
+theorem values_wf (s0 : St) (h0 : VWF s0) (c : Cfg) (hr : Reach s0 c) : VWF c.st := by
+  have hstart : ∀ (s : St) d tape op, VWF s → VWF (startOf (envChange s d tape) op).st := by
+    intro s d tape op hs
+    have : (startOf (envChange s d tape) op).st = envChange s d tape := by cases op <;> rfl
+    rw [this]; exact hs
+  exact Reach.inv (fun c => VWF c.st) (fun d tape op => hstart s0 d tape op h0)
+    (fun c hc => (step_vg 0 c).wf hc) (fun c d tape op hc _ => hstart c.st d tape op hc) c hr
+
+/-- … hence what an observer reads (`Value.value`) is exactly the collapsed list of the items
+    stored so far, for every event, at every moment -/
+theorem value_view_exact (s0 : St) (h0 : VWF s0) (c : Cfg) (hr : Reach s0 c) (e : Nat) :
+    (c.st.ev e).val.view = collapse (c.st.ev e).val.items :=
+  view_of_wf _ (values_wf s0 h0 c hr e)
+
+/-- **value_only_grows**: along any step of any reachable configuration, for an event that is
+    not fired (again) by that step - no `fire e` entry is logged - the stored items only grow by
+    appending at the end (nothing dropped, nothing reordered), the flags `errors`, `result`,
+    `promise` never go back to false, and the observable value is the collapsed longer list -/
+theorem value_only_grows (s0 : St) (h0 : VWF s0) (c : Cfg) (hr : Reach s0 c) (e : Nat) :
+    ∃ es, (step c).st.log = es ++ c.st.log ∧
+      ((∀ n ch p, Entry.fire e n ch p ∉ es) →
+        ∃ xs, ((step c).st.ev e).val.items = (c.st.ev e).val.items ++ xs ∧
+          ((step c).st.ev e).val.view = collapse ((c.st.ev e).val.items ++ xs) ∧
+          ((c.st.ev e).val.errors = true → ((step c).st.ev e).val.errors = true) ∧
+          ((c.st.ev e).val.result = true → ((step c).st.ev e).val.result = true) ∧
+          ((c.st.ev e).val.promise = true → ((step c).st.ev e).val.promise = true)) := by
+  have hw := values_wf s0 h0 c hr
+  obtain ⟨es, hlog, hext⟩ := (step_vg e c).hist
+  refine ⟨es, hlog, fun hn => ?_⟩
+  have hx := hext hw hn
+  obtain ⟨xs, hxs⟩ := hx.items
+  refine ⟨xs, hxs, ?_, hx.errors, hx.result, hx.promise⟩
+  rw [view_of_wf _ ((step_vg e c).wf hw e), hxs]
+
+/-- the same over whole runs (`runN n` = iterate `step`, any `n`): as long as the event is not
+    fired again, the items present at any moment stay a prefix of the items later on, and a set
+    `errors` flag stays set -/
+theorem value_only_grows_run (s0 : St) (h0 : VWF s0) (c : Cfg) (hr : Reach s0 c) (e n : Nat) :
+    ∃ es, (runN n c).st.log = es ++ c.st.log ∧
+      ((∀ m ch p, Entry.fire e m ch p ∉ es) →
+        ∃ xs, ((runN n c).st.ev e).val.items = (c.st.ev e).val.items ++ xs ∧
+          ((runN n c).st.ev e).val.view = collapse ((c.st.ev e).val.items ++ xs) ∧
+          ((c.st.ev e).val.errors = true → ((runN n c).st.ev e).val.errors = true)) := by
+  have hw := values_wf s0 h0 c hr
+  obtain ⟨es, hlog, hext⟩ := (runN_vg e n c).hist
+  refine ⟨es, hlog, fun hn => ?_⟩
+  have hx := hext hw hn
+  obtain ⟨xs, hxs⟩ := hx.items
+  refine ⟨xs, hxs, ?_, hx.errors⟩
+  rw [view_of_wf _ ((runN_vg e n c).wf hw e), hxs]
+
+/-- `setValue` on an existing event is exactly one `Val.set` on it (one more item at the end) and
+    leaves every other existing event alone (`_partial`: existing event, well-formed Values - both
+    hold in reachable configurations, the first is not proved here) -/
+theorem setValue_appends_partial (s : St) (hw : VWF s) (e : Nat) (x : VItem) (he : e < s.evs.length) :
+    ((s.setValue e x).ev e).val.items = (s.ev e).val.items ++ [x] ∧
+    ((s.setValue e x).ev e).val.errors = (s.ev e).val.errors ∧
+    ∀ y, y < s.evs.length → y ≠ e → ((s.setValue e x).ev y).val = (s.ev y).val := by
+  rw [St.v4_setValue_val s e x he]
+  exact ⟨Val.set_items _ _ (hw e), Val.set_errors _ _, fun y hy hne => (St.v4_setValue_other s e x y hy hne).val⟩
+
+/-- **errors_iff_raised** (only-if): the `errors` flag of an event goes from false to true only in
+    a raise-handling step for that event - the `except BaseException` of the handler loop
+    (`.hAfter` reading `.raised`) or of `processTask` (`.ptOwn`/`.ptParent` reading `.raised`,
+    `.ptBody` of a framework generator).  Holds for every configuration. -/
+theorem errors_iff_raised (c : Cfg) (e : Nat) (h0 : (c.st.ev e).val.errors = false)
+    (h1 : ((step c).st.ev e).val.errors = true) : RaiseStep e c := by
+  apply Classical.byContradiction
+  intro hn
+  have := (step_ne e c hn).imp h1
+  rw [h0] at this
+  cases this
+
+/-- (if): a handler of `e` raised ⇒ the flag is set by that very step …
+    (`_partial`: for an existing event, see `task_raised_sets_errors_partial`) -/
+theorem raised_sets_errors_partial (c : Cfg) (r e : Nat) (rest : List Nat) (err : Bool) (stale : Outcome) (k : List Frame)
+    (h : c.stack = .hAfter r e rest err stale :: k) (hx : c.exn = none) (hr : c.ret.outcome = .raised)
+    (he : e < c.st.evs.length) : ((step c).st.ev e).val.errors = true := by
+  rw [step_hAfter_raised c r e rest err stale k h hx hr]
+  exact St.v4_handlerRaised_errors c.st r e he
+
+/-- … and likewise when a generator handler (task) of `e` raised, in every reachable
+    configuration; the error triple is stored as one more result.
+    `_partial`: the hypothesis `t.e < c.st.evs.length` (the task's event exists) holds in every
+    reachable configuration, but the invariant "event ids in frames / tasks / queues are in range"
+    is not proved here; `raised_needs_event_witness` shows it cannot simply be dropped. -/
+theorem task_raised_sets_errors_partial (s0 : St) (h0 : VWF s0) (c : Cfg) (hreach : Reach s0 c)
+    (r : Nat) (t : Task) (k : List Frame)
+    (h : c.stack = .ptOwn r t :: k) (hx : c.exn = none) (hr : c.ret.yield = .raised)
+    (he : t.e < c.st.evs.length) :
+    ((step c).st.ev t.e).val.errors = true ∧
+    ((step c).st.ev t.e).val.items = (c.st.ev t.e).val.items ++ [.err] := by
+  rw [(step_ptOwn_raised c r t k h hx hr).1, St.v4_errorBranch_val c.st r t false he]
+  exact ⟨rfl, Val.set_items _ _ (values_wf s0 h0 c hreach t.e)⟩
+
+/-- for an event id that does not exist the model's `handlerRaised` has nothing to set the flag
+    on: the `_partial` statements above need their hypothesis -/
+theorem raised_needs_event_witness :
+    ((step { st := {}, stack := [.hAfter 0 0 [] false .none], ret := .out .raised }).st.ev 0).val.errors = false := by
+  decide
+
+/-- non-vacuity of `RaiseStep` -/
+example : RaiseStep 0 { st := {}, stack := [.hAfter 0 0 [] false .none], ret := .out .raised } :=
+  ⟨rfl, _, _, rfl, rfl, rfl⟩
+
+/-- **raise_isolated**: when a handler of `e` raised, the step
+    * performs `handlerRaised`: exactly one `exception` event is fired, preceded by exactly one
+      `<name>_failure` event iff the event requested failure feedback, nothing else is logged;
+    * continues with `.hApply … rest …` on the *same* remaining handlers `rest`, the stack below is
+      untouched, no exception is pending;
+    * and the step after it is back at the head of the loop with `rest` (or leaves the loop
+      because a handler had called `event.stop()`).
+    One handler's exception never drops the loop. -/
+theorem raise_isolated (c : Cfg) (r e : Nat) (rest : List Nat) (err : Bool) (stale : Outcome) (k : List Frame)
+    (h : c.stack = .hAfter r e rest err stale :: k) (hx : c.exn = none) (hr : c.ret.outcome = .raised) :
+    (step c).stack = .hApply r e rest true .raised :: k ∧ (step c).exn = none ∧
+    (∃ ch, (step c).st.log =
+      if (c.st.ev e).failure then
+        .fire (c.st.evs.length + 1) Name.exception ch 0 ::
+          .fire c.st.evs.length ((c.st.ev e).name.child sfxFailure) (c.st.ev e).chans 0 :: c.st.log
+      else .fire c.st.evs.length Name.exception ch 0 :: c.st.log) ∧
+    (step c).st.evs.length = c.st.evs.length + (if (c.st.ev e).failure then 2 else 1) ∧
+    (step (step c)).exn = none ∧
+    ((step (step c)).stack = .hLoop r e rest true .raised :: k ∨
+     (step (step c)).stack = .dispFin r e true :: k) := by
+  have hs := step_hAfter_raised c r e rest err stale k h hx hr
+  have h2 := step_hApply (step c) r e rest true .raised k (by rw [hs]) (by rw [hs]; exact hx)
+  refine ⟨by rw [hs], by rw [hs]; exact hx, ?_, ?_, h2.2.1, ?_⟩
+  · rw [hs]; exact St.v4_handlerRaised_log c.st r e
+  · rw [hs]; exact St.v4_handlerRaised_evs_length c.st r e
+  · rw [h2.2.2]; split
+    · exact Or.inr rfl
+    · exact Or.inl rfl
+
+/-- the same for a generator handler (task): the error branch of `processTask` fires exactly one
+    `exception` event and one `<name>_failure` event iff requested, and returns to the task loop
+    (or goes on to `_eventDone`): the frames below are untouched, no exception is pending -/
+theorem raise_isolated_task_partial (c : Cfg) (r : Nat) (t : Task) (k : List Frame)
+    (h : c.stack = .ptOwn r t :: k) (hx : c.exn = none) (hr : c.ret.yield = .raised)
+    (he : t.e < c.st.evs.length) :
+    (step c).exn = none ∧ ((step c).stack = k ∨ (step c).stack = .eventDone r t.e true :: k) ∧
+    ∃ es, (step c).st.log = es ++ c.st.log ∧ fires Name.exception es = 1 ∧
+      fires ((c.st.ev t.e).name.child sfxFailure) es = if (c.st.ev t.e).failure then 1 else 0 := by
+  obtain ⟨h1, h2, h3⟩ := step_ptOwn_raised c r t k h hx hr
+  refine ⟨h2, ?_, ?_⟩
+  · rw [h3]; split
+    · exact Or.inr rfl
+    · exact Or.inl rfl
+  · rw [h1]; exact St.v4_errorBranch_log c.st r t false he
+
+/-- the same when the exception came out of the caller resumed after `call`/`wait` -/
+theorem raise_isolated_task_resumed_partial (c : Cfg) (r : Nat) (t : Task) (p : Nat) (viaThrow : Bool) (k : List Frame)
+    (h : c.stack = .ptParent r t p viaThrow :: k) (hx : c.exn = none) (hr : c.ret.yield = .raised)
+    (he : t.e < c.st.evs.length) :
+    (step c).exn = none ∧ ((step c).stack = k ∨ (step c).stack = .eventDone r t.e true :: k) ∧
+    ∃ es, (step c).st.log = es ++ c.st.log ∧ fires Name.exception es = 1 ∧
+      fires ((c.st.ev t.e).name.child sfxFailure) es = if (c.st.ev t.e).failure then 1 else 0 := by
+  obtain ⟨h1, h2, h3⟩ := step_ptParent_raised c r t p viaThrow k h hx hr
+  refine ⟨h2, ?_, ?_⟩
+  · rw [h3]; split
+    · exact Or.inr rfl
+    · exact Or.inl rfl
+  · rw [h1]; exact St.v4_errorBranch_log c.st r t true he
+
+/-- no step ever touches the frames below the top frame (normal execution and unwinding alike):
+    whatever runs above a loop frame - a raising handler, nested dispatches - the loop frame and
+    everything below it are still there when it is done -/
+theorem frames_below_untouched (c : Cfg) (fs k : List Frame) (h : c.stack = fs ++ k) (hne : fs ≠ []) :
+    ∃ fs', (step c).stack = fs' ++ k := step_keeps_below c fs k h hne
+
+/-- **success_rule**: the `_eventDone` step.  While handlers (suspended generator handlers) are
+    still waiting it does nothing at all; otherwise it logs `<name>_done` iff a waiter asked for it
+    and `<name>_success` exactly once, on the success channels, iff the dispatcher saw no error
+    (`err`), the Value carries no error and the event requested success feedback. -/
+theorem success_rule (c : Cfg) (r e : Nat) (err : Bool) (k : List Frame)
+    (h : c.stack = .eventDone r e err :: k) (hx : c.exn = none) :
+    ((c.st.ev e).waiting ≠ 0 → (step c).st = c.st ∧ (step c).stack = k) ∧
+    ((c.st.ev e).waiting = 0 →
+      (step c).stack = .effectDone r e true :: k ∧
+      (step c).st.log =
+        (if c.st.successCond e err then
+          [Entry.fire (c.st.evs.length + (if (c.st.ev e).alertDone then 1 else 0)) ((c.st.ev e).name.child sfxSuccess)
+            ((c.st.ev e).successChans.getD (c.st.ev e).chans) 0] else []) ++
+        (if (c.st.ev e).alertDone then
+          [Entry.fire c.st.evs.length ((c.st.ev e).name.child sfxDone) (c.st.ev e).chans 0] else []) ++
+        c.st.log) := by
+  obtain ⟨h1, h2⟩ := step_eventDone c r e err k h hx
+  constructor
+  · intro hw
+    rw [h1, h2, St.v4_eventDonePre_waiting c.st r e err hw]
+    exact ⟨rfl, rfl⟩
+  · intro hw
+    have hf := (St.v4_eventDonePre_fst c.st r e err).2 hw
+    rw [h1, h2, hf, St.v4_eventDonePre_log c.st r e err hw]
+    exact ⟨rfl, rfl⟩
+
+/-- with `errors_iff_raised`/`value_only_grows`: once a handler of the event raised (the flag
+    stays set until the event is fired again) `_eventDone` fires no `<name>_success` -/
+theorem no_success_after_error (s : St) (e : Nat) (err : Bool) (h : (s.ev e).val.errors = true) :
+    s.successCond e err = false := by
+  simp [St.successCond, h]
+
+/-- **no success after a raise**, over whole runs: from a reachable configuration in which the
+    `errors` flag of `e` is set (by `errors_iff_raised`: a handler or task of `e` raised), for
+    every number of further steps during which `e` is not fired again, the success condition
+    `_eventDone` evaluates for `e` is false - whatever `err` it is called with, in particular
+    when the last suspended generator handler finishes (`err = false`) -/
+theorem no_success_after_raise_run (s0 : St) (h0 : VWF s0) (c : Cfg) (hr : Reach s0 c) (e n : Nat)
+    (herr : (c.st.ev e).val.errors = true) :
+    ∃ es, (runN n c).st.log = es ++ c.st.log ∧
+      ((∀ m ch p, Entry.fire e m ch p ∉ es) → ∀ err, (runN n c).st.successCond e err = false) := by
+  obtain ⟨es, hlog, hx⟩ := value_only_grows_run s0 h0 c hr e n
+  refine ⟨es, hlog, fun hn err => ?_⟩
+  obtain ⟨_, _, _, he⟩ := hx hn
+  exact no_success_after_error _ e err (he herr)
+
+/-- … nor when the dispatcher itself saw the exception -/
+theorem no_success_when_err (s : St) (e : Nat) : s.successCond e true = false := by
+  simp [St.successCond]
+
+/-- **all_handlers_visited**: one step of a configuration inside the handler loop of `e` with the
+    handlers `hs` still pending (`InLoop`: the loop frame `.hLoop/.hAfter/.hApply r e hs` sits
+    directly above `k`, anything may run above it) either
+      1. stays in the loop with the same pending list,
+      2. invokes some `x ∈ hs` and removes exactly `x` from the pending list (`hs` is a permutation
+         of `x :: hs.erase x`; the list shrinks by one),
+      3. leaves the loop normally - only when nothing is pending or the event was stopped, or
+      4. is dropped by an exception unwinding through the loop frame (in the model: `SystemExit`
+         from `stop(code)` outside an executing thread, `blocked`, API misuse).
+    So along any execution every handler of the list is invoked exactly once, in some order,
+    until one of (3), (4) happens; a handler that raises is case (1). -/
+theorem all_handlers_visited (r e : Nat) (k : List Frame) (hs : List Nat) (c : Cfg) (h : InLoop r e k hs c) :
+    InLoop r e k hs (step c)
+    ∨ (∃ x, x ∈ hs ∧ hs.Perm (x :: hs.erase x) ∧ (hs.erase x).length + 1 = hs.length ∧
+        ∃ err stale, (step c).stack = .invoke r x e :: .hAfter r e (hs.erase x) err stale :: k)
+    ∨ (∃ err, (step c).stack = .dispFin r e err :: k ∧
+        (hs = [] ∨ ∃ v, c.stack = .hApply r e hs err v :: k ∧ ((c.st.applyValue r e v).ev e).stopped = true))
+    ∨ (c.exn ≠ none ∧ (step c).stack = k) := loop_step r e k hs c h
+
+/-- non-vacuity: the dispatcher enters the loop -/
+example : InLoop 0 0 [] [1, 2] { st := {}, stack := [.hLoop 0 0 [1, 2] false .none] } :=
+  ⟨[], _, rfl, rfl, rfl, rfl⟩
 
 end CV.C04
